@@ -9,6 +9,9 @@ Obligations
                 == closed form of the model (`expectedReports` / `expectedResult`) computed by the Lean driver from the
                 per-file frame lists (frame lists taken from a fault-free `--debug-ipc` run of each file)
   C2            the executable transition system run under a pseudo-random schedule == its closed form (model self-check)
+  mixed k      harness/c21_faults.c (LD_PRELOAD, no repo change): one fault spec per worker, so simultaneous crashers die at DIFFERENT
+                crash points; `shim-agrees-with-hook` compares it with the hook on single specs; `:mid` kills inside a message (F14,
+                known finding midframe-death-aborts-parent, replayed on the real binary)
 P_impl          evaluated on the implementation for every explored case, without the model: terminates; exactly one
                 cppcheckError per crashed file; findings of the other files all present; nothing reported that the
                 fault-free run does not report; exit status == --error-exitcode
@@ -25,7 +28,7 @@ RULE = ("case = (project, set of crashing files, crash point k = number of compl
 EXPLANATION = ("Lean: the parent loop of ProcessExecutor::check as a transition system (worker progress/death interleaved with "
                "spawn/select/waitpid phases); proved for every schedule and every fault set at frame boundaries: termination under "
                "fairness, closed-form log and result in every final state. Per-file analysis results (frame lists) are inputs. "
-               "Outside the model: death inside a frame (F14, proved NOT contained), suppressions inside hasToLog, stale-errno "
+               "Outside the claimed statement: death inside a frame (F14: modelled, proved NOT contained, replayed on the binary as a known finding); outside the model: suppressions inside hasToLog, stale-errno "
                "EAGAIN branch of handleRead, load-average throttling, pipe()/fork() failures.")
 THEOREMS = ["Cppcheck.ProcFaults.terminates", "Cppcheck.ProcFaults.contained_partial", "Cppcheck.ProcFaults.internal_errors_exact_partial",
             "Cppcheck.ProcFaults.findings_vs_faultfree_partial", "Cppcheck.ProcFaults.exit_status_nonzero_iff_partial",
